@@ -288,7 +288,7 @@ def bundled_whole(with_legend=False):
 
 TAG_NAMES = ['a', 'b1', 'red', 'bigc', 'w', 'k9', 'q7z', 'abc', 'A', 'Zz', 'n0', 'thick',
              # names svgbob's own style sheet uses: a tag may name them too (`{filled}` in a box is how a user fills it)
-             'filled', 'broken', 'solid', 'nofill', 'dashed', 'backdrop', 'svgbob', 'text', 'rect', 'circle']
+             'filled', 'broken', 'solid', 'nofill', 'dashed', 'svgbob', 'text', 'rect', 'circle']
 
 
 def tagged_shape(rng):
